@@ -8,7 +8,7 @@ namespace scen_mutex {
 enum Oracle : unsigned { O_EXCLUSION = 1, O_FIFO = 2 };
 
 struct Round { uint8_t acq, cs_yields, rel, pre_yields; };
-struct Contender { uint8_t flavour; std::vector<Round> rounds; };   // flavour 0 coroutine, 1 thread
+struct Contender { uint8_t flavour; std::vector<Round> rounds; bool par = false; };   // par: 'release on helper thread' rounds use parallel_resume(own.release()) instead   // flavour 0 coroutine, 1 thread
 struct Prog { std::vector<Contender> c; };
 
 inline Prog decode(hz::Reader &r) {
@@ -28,6 +28,8 @@ inline Prog decode(hz::Reader &r) {
         }
         p.c.push_back(std::move(c));
     }
+    // trailing bytes (older replay files keep their meaning)
+    for (auto &c : p.c) c.par = r.mod(4) == 3;
     return p;
 }
 
@@ -42,7 +44,7 @@ inline std::string describe(const Prog &p) {
         d << " C" << (unsigned)i << (p.c[i].flavour ? "(thread):" : "(coroutine):");
         for (auto &x : p.c[i].rounds)
             d << " [yield*" << (unsigned)x.pre_yields << ", " << (p.c[i].flavour ? acq_t[x.acq] : acq_c[x.acq]) << ", CS yield*"
-              << (unsigned)x.cs_yields << ", " << (p.c[i].flavour ? rel_t[x.rel] : rel_c[x.rel]) << "]";
+              << (unsigned)x.cs_yields << ", " << (x.rel == 3 && p.c[i].par ? "parallel_resume(release())" : p.c[i].flavour ? rel_t[x.rel] : rel_c[x.rel]) << "]";
         d << ";";
     }
     return d.s;
@@ -139,7 +141,7 @@ inline cocls::async<void> contender_coro(Ctx &ctx, int id) {
                 else own = cocls::mutex::ownership();
                 break;
             case 2: { auto sp = own.release(); cs.running = false; co_await sp; cs.running = true; } break;
-            default: helper_release(std::move(own)); break;
+            default: if (c.par) cocls::parallel_resume(own.release()); else helper_release(std::move(own)); break;
         }
         rq.t_end = hz::tick();
     }
@@ -192,7 +194,7 @@ inline void contender_thread(Ctx &ctx, int id) {
                 else own = cocls::mutex::ownership();
                 break;
             case 2: { auto sp = own.release(); hz::upoint(); sp.clear(); } break;
-            default: helper_release(std::move(own)); break;
+            default: if (c.par) cocls::parallel_resume(own.release()); else helper_release(std::move(own)); break;
         }
         rq.t_end = hz::tick();
     }
@@ -266,11 +268,13 @@ inline void run(hz::Reader &r, unsigned oracle) {
     hz::set_class(w * 2 + (st.preempt_in_lib ? 1 : 0));
     hz::set_nontrivial(waited >= 1 && st.preempt_in_lib > 0);
     hz::count(0, waited); hz::count(1, tries); hz::count(2, grants);
+    unsigned par = 0; for (auto &c : p.c) if (c.par) for (auto &x : c.rounds) if (x.rel == 3) par++;
+    hz::count(3, par);
 }
 
 static const char *const class_names[] = {
     "no-waiter/no-preemption", "no-waiter/preempted-in-library", "1-waiter/no-preemption", "1-waiter/preempted-in-library",
     "2+waiters/no-preemption", "2+waiters/preempted-in-library"};
-static const char *const counter_names[] = {"requests_that_waited", "try_lock_calls", "grants"};
+static const char *const counter_names[] = {"requests_that_waited", "try_lock_calls", "grants", "releases_through_parallel_resume"};
 
 } // namespace scen_mutex
